@@ -795,4 +795,100 @@ func judge(c *common.Ctx, cr *caseResult) {
 			return
 		}
 	}
+	// "carrying the same ... constraints": a Field row has columns for length, precision and scale only. The bit width
+	// (and, for the integers, the range) by which the compiler tells int32 / int64 / float32 / float64 from int / float
+	// has no column: the rows of `x <: int32`, `x <: int64` and `x <: int` are the same. One report per module.
+	if w := droppedConstraint(cr.m, func(c *sysl.Type_Constraint) bool { return c.GetBitWidth() != 0 }); w != "" {
+		c.Fail("field:bit-width-not-in-row", fmt.Sprintf("%s: field %s has a bit-width constraint; relmod.Field has no column for it (FieldConstraint = length, precision, scale): int32 / int64 / float32 / float64 cannot be told from int / float in the relational model", name, w), cr.rp)
+	}
+	if w := droppedConstraint(cr.m, func(c *sysl.Type_Constraint) bool { return c.GetRange() != nil }); w != "" {
+		c.Fail("field:range-not-in-row", fmt.Sprintf("%s: field %s has a range constraint; relmod.Field has no column for it (FieldConstraint = length, precision, scale)", name, w), cr.rp)
+	}
+}
+
+// the first field (applications, types, fields in name order) one of whose constraints satisfies p
+func droppedConstraint(m *sysl.Module, p func(*sysl.Type_Constraint) bool) string {
+	for _, an := range sortedKeys(m.Apps) {
+		app := m.Apps[an]
+		for _, tn := range sortedKeys(app.GetTypes()) {
+			var fields map[string]*sysl.Type
+			switch x := app.Types[tn].GetType().(type) {
+			case *sysl.Type_Tuple_:
+				fields = x.Tuple.GetAttrDefs()
+			case *sysl.Type_Relation_:
+				fields = x.Relation.GetAttrDefs()
+			}
+			for _, fn := range sortedKeys(fields) {
+				for _, c := range fields[fn].GetConstraint() {
+					if p(c) {
+						return an + "." + tn + "." + fn
+					}
+				}
+			}
+		}
+	}
+	return ""
+}
+
+func schemaSize(s *relmod.Schema) int {
+	n := 0
+	for _, rows := range obsStrings(s) {
+		n += len(rows)
+	}
+	return n
+}
+
+// `sysl transform`: what the identity script saw against what relmod.Normalize returned for the same module
+func judgeTransform(c *common.Ctx, cr *caseResult) {
+	name := cr.rp.File
+	if cr.rp.Kind == "direct" {
+		name = fmt.Sprintf("seed-built protobuf module (seed %d)", cr.rp.Seed)
+	} else if name == "" {
+		name = "generated specification"
+	}
+	tr := cr.tr
+	switch tr.kind {
+	case "panic":
+		c.Fail("transform:crash", fmt.Sprintf("%s: building the transform input / running the identity script panics: %s", name, tr.msg), cr.rp)
+		return
+	case "decode":
+		c.Fail("transform:shape", fmt.Sprintf("%s: the model handed to a transform script is not (path, doc, rel: the relational schema): %s", name, tr.msg), cr.rp)
+		return
+	case "err":
+		if cr.o1.kind == "ok" {
+			c.Fail("transform:refused", fmt.Sprintf("%s: relmod.Normalize accepts the module, the transform refuses it: %s", name, tr.msg), cr.rp)
+		}
+		return
+	}
+	if cr.o1.kind != "ok" {
+		c.Fail("transform:accepted", fmt.Sprintf("%s: relmod.Normalize answers %s (%s), the transform ran", name, cr.o1.kind, cr.o1.msg), cr.rp)
+		return
+	}
+	if tr.path != transformPath {
+		c.Fail("transform:path", fmt.Sprintf("%s: the model's path is %q, the command was given %q", name, tr.path, transformPath), cr.rp)
+	}
+	a, b := obsStrings(cr.o1.s), obsStrings(tr.s)
+	rels := map[string]bool{}
+	for k := range a {
+		rels[k] = true
+	}
+	for k := range b {
+		rels[k] = true
+	}
+	var names []string
+	for k := range rels {
+		names = append(names, k)
+	}
+	sort.Strings(names)
+	for _, k := range names {
+		sa, sb := asSet(a[k]), asSet(b[k])
+		if len(sa) < len(a[k]) {
+			c.Hist("transform:equal-rows-merged-in-the-set:" + k)
+		}
+		missing, extra := diffRows(sa, sb)
+		if len(missing) > 0 || len(extra) > 0 {
+			c.Fail("transform:rows:"+k, fmt.Sprintf("%s: relation %s as the script sees it differs from relmod.Normalize: not seen %s; only seen %s", name, k, short(missing), short(extra)), cr.rp)
+			return
+		}
+	}
 }
